@@ -287,3 +287,73 @@ def report_resolve(ctx, rule):
     else:
         ctx.ok(rule, f, f.node, "link model: _resolve_ref on %d kinds of assigned object: anything with dependencies or asynchronous comes back as a reference with all its dependencies, "
                                 "whatever kind of parameter the sources are" % n)
+
+
+def resolve_ref_model(ctx):
+    """resolve_ref interpreted abstractly for a depends-decorated bound method of O used as a reference, whose string specs
+    name a parameter of a sub-object and parameters of O itself, in every order; also with a keyword spec and a
+    Parameter-object dependency.  Specification: every spec is resolved RELATIVE TO THE METHOD'S OWNER -- the result is
+    exactly the Parameter objects named, in the order given (one watcher is installed per Parameter returned: a spec
+    resolved on the wrong object means the link silently ignores changes of the right one)."""
+    f = ctx.repo.func(P + "resolve_ref")
+    problems, n = [], 0
+    mkp = lambda owner, nme: Obj("%s.param.%s" % (owner.name, nme), owner=owner, name=nme, __kind__="Parameter")
+    for specs in (["child.value", "value"], ["value", "child.value"], ["child.value", "other", "value"], ["child.grand.value", "value"]):
+        O, C, G = Obj("O"), Obj("child_of_O"), Obj("grandchild")
+        table = {}
+        for o, names in ((O, ["value", "other"]), (C, ["value", "other"]), (G, ["value"])):
+            ps = {nme: mkp(o, nme) for nme in names}
+            table[id(o)] = ps
+            o.attrs["param"] = Obj("namespace_of_" + o.name, __contains__=list(ps), __getitem__=dict(ps))
+        O.attrs["child"] = C
+        C.attrs["grand"] = G
+        C.attrs["child"] = Obj("a_deeper_child_that_must_not_be_consulted")
+        extra = mkp(Obj("unrelated_object"), "q")
+        method = Obj("bound_depends_method", _dinfo={"dependencies": list(specs) + [extra], "kw": {"k": "other"}})
+
+        def hook(fn, args, kwargs):
+            if fn == "transform_reference" and args:
+                return args[0]
+            if fn == "get_method_owner":
+                return O
+            if fn == "hasattr" and len(args) == 2:
+                return isinstance(args[0], Obj) and args[1] in args[0].attrs
+            if fn == "isinstance" and len(args) == 2:
+                if args[1] == "<type str>":
+                    return isinstance(args[0], str)
+                if args[1] in ("Parameter", "<Parameter>"):
+                    return isinstance(args[0], Obj) and args[0].attrs.get("__kind__") == "Parameter"
+                return False
+            return NotImplemented
+        it = Interp(ctx.hier, call_hook=hook, inline_module_functions=True, globals={"Parameter": "Parameter"})
+        try:
+            outs = it.run_all(f, {"reference": method, "recursive": False})
+        except Unsupported as e:
+            raise AnalysisError("link model: absint cannot interpret resolve_ref: %s" % e)
+        if len(outs) != 1 or outs[0].imprecise or outs[0].kind != "return" or not isinstance(outs[0].value, list):
+            raise AnalysisError("link model: resolve_ref is not interpretable precisely (%s)" % (outs[0].notes[:2] if outs else "no outcome"))
+        n += 1
+
+        def want_of(spec):
+            cur = O
+            parts = spec.split(".")
+            for a in parts[:-1]:
+                cur = cur.attrs[a]
+            return table[id(cur)][parts[-1]]
+        want = [want_of(sp) for sp in specs] + [extra, table[id(O)]["other"]]
+        got = outs[0].value
+        desc = "a method of O declared depends(%s, <a Parameter>, k='other') used as a reference" % ", ".join(repr(x) for x in specs)
+        if len(got) != len(want) or any(a is not b for a, b in zip(got, want)):
+            problems.append("%s resolves to %s, specification %s: the link does not follow the parameters named relative to the method's owner" % (
+                desc, [getattr(x, "name", x) for x in got], [w.name for w in want]))
+    return n, problems
+
+
+def report_resolve_ref(ctx, rule):
+    n, problems = resolve_ref_model(ctx)
+    f = ctx.repo.func(P + "resolve_ref")
+    ctx.abstract_cases += n
+    if problems:
+        ctx.fail(rule, f, f.node, "link model (resolve_ref): %s (%d disagreeing case(s))" % (problems[0], len(problems)), key=f.qualname + "::resolve-ref-model")
+    else:
+        ctx.ok(rule, f, f.node, "link model: the string specs of a method reference are each resolved relative to the method's owner (%d spec lists)" % n)
